@@ -283,7 +283,7 @@ class FactBase:
             for r in recs:
                 self.by_inst.setdefault(self.node_of(r), []).append(r)
                 for o in r.get("overrides", []):
-                    overriders.setdefault(o, set()).add(n)
+                    overriders.setdefault(o, set()).add(self.node_of(r))
         changed = True
         while changed:
             changed = False
@@ -307,9 +307,7 @@ class FactBase:
                                 c = ev["callee"]
                             out.add(c)
                             if ev.get("virt"):
-                                for o in overriders.get(ev["callee"], ()):
-                                    for r2 in self.funcs.get(o, ()):
-                                        out.add(self.node_of(r2))
+                                out.update(overriders.get(ev.get("inst", ev["callee"]), ()))
         self._cg = cg
         return cg
 
